@@ -30,6 +30,10 @@ def handleLine (fs : List (List String)) : Option String :=
      | .metaL, some (k, v) => some ("K " ++ show_ k ++ " , " ++ show_ v)
      | .metaL, none => some "ERR"
      | _, _ => some "NOTMETA")
+  | [["fixed4render"], [neg, k]] =>
+    some ("L " ++ " ".intercalate ((Verif.Num.renderFixed4 (neg == "1") (nat! k)).map toString))
+  | [["fixed4parse"], cps] =>
+    some (match Verif.Num.parseFixed4 (cps.map nat!) with | some (ng, k) => s!"F {if ng then 1 else 0} {k}" | none => "none")
   | [["intrender"], [n]] =>
     some ("L " ++ " ".intercalate ((Verif.Num.renderInt (int! n)).map toString))
   | [["intparse"], cps] =>
